@@ -112,6 +112,10 @@ def fn_ob(prop: str, c: vc.Contract, callees: Dict[str, vc.Contract] = None, cal
               timeout=ob_timeout, tier=tier, assumes=list(c.assumes), fallback=fallback)
 
 
+class _CaseTimeout(BaseException):
+    pass
+
+
 def _lookup(ns, qualname):
     obj = ns[qualname.split(".")[0]]
     for p in qualname.split(".")[1:]:
@@ -133,16 +137,43 @@ def _generic_case_replay(check, case):
 
 def enum_ob(obid: str, functions: List[str], cases: Callable[[], Iterable[Any]], check: Callable[[Any], tuple],
             desc: str, replay_code: Optional[Callable[[Any], str]] = None, expected="", tier="quick",
-            timeout=300.0, finding_key: Optional[Callable[[Any], str]] = None, exhaustive=True) -> Ob:
-    """bounded stand-in: run `check(case) -> (ok|None, observed)` on every enumerated case."""
+            timeout=300.0, finding_key: Optional[Callable[[Any], str]] = None, exhaustive=True, case_timeout: Optional[int] = None, time_budget: Optional[float] = None) -> Ob:
+    """bounded stand-in: run `check(case) -> (ok|None, observed)` on every enumerated case.  With case_timeout, a single case that runs longer
+    (sympy can take minutes on an unlucky expression) is skipped and counted as such - slowness is never a verdict."""
+    def run_case(case):
+        if not case_timeout:
+            return check(case)
+        import signal
+        old_handler = signal.getsignal(signal.SIGALRM)
+        remaining = signal.alarm(0)
+        t1 = time.time()
+
+        def on_alarm(signum, frame):
+            raise _CaseTimeout()
+        signal.signal(signal.SIGALRM, on_alarm)
+        signal.alarm(max(1, min(case_timeout, remaining - 2) if remaining else case_timeout))
+        try:
+            return check(case)
+        except _CaseTimeout:
+            return None, f"skipped: slower than {case_timeout}s"
+        finally:
+            signal.alarm(0)
+            signal.signal(signal.SIGALRM, old_handler)
+            if remaining:
+                signal.alarm(max(1, remaining - int(time.time() - t1)))
+
     def run():
         t0 = time.time()
         n = 0
         skipped = 0
         first = None
         for case in cases():
+            if time_budget and n and time.time() - t0 > time_budget:
+                break           # a sampled (non-exhaustive) family: stop drawing further cases when the time budget is used; the evidence reports how many were run
             try:
-                ok, obs = check(case)
+                ok, obs = run_case(case)
+            except core._Timeout:
+                raise
             except Exception as e:  # the real code raised where the contract allows no exception
                 import traceback
                 ok, obs = False, "raised " + type(e).__name__ + ": " + str(e)[:200] + " @ " + traceback.format_exception(e)[-2].strip()[:200]
@@ -178,7 +209,7 @@ def random_ob(prop: str, tier: str, seed: int) -> Optional[Ob]:
     n = nq if tier == "quick" else nt
     base = int(seed) * 10 ** 6
     return enum_ob(f"{prop}.random.enum", fns, lambda: range(base, base + n), getattr(rcheck, "check_" + prop),
-                   f"bounded: {n} seeded-random combination cases (seed {seed}) - " + rcheck.doc(prop), exhaustive=False, timeout=900)
+                   f"bounded: {n} seeded-random combination cases (seed {seed}) - " + rcheck.doc(prop), exhaustive=False, timeout=1500, case_timeout=45, time_budget=700)
 
 
 def anchor_modules(prop: str) -> List[str]:
